@@ -24,6 +24,10 @@ pub struct ServerKnobs {
     pub shuffle_answers: bool,
     /// Force TC on UDP for every n-th reply (0 = never), so the TCP path runs.
     pub tc_every: u32,
+    /// Glue the ROOT's referrals carry: 0 = all, 1 = only AAAA records, 2 = only A
+    /// records (minimal or size-limited responses: the other family is learnt later).
+    #[serde(default)]
+    pub root_glue_family: u8,
 }
 
 impl Default for ServerKnobs {
@@ -33,6 +37,7 @@ impl Default for ServerKnobs {
             sibling_glue: false,
             shuffle_answers: false,
             tc_every: 0,
+            root_glue_family: 0,
         }
     }
 }
@@ -68,6 +73,7 @@ pub const FAULT_KINDS: &[&str] = &[
     "referral_deeper_fake",
     "referral_glueless_alias_ns",
     "referral_in_answer_section",
+    "referral_to_self_with_glue",
     "cname_loop_inline",
     "cname_to_loop",
     "cname_stream",
@@ -162,6 +168,8 @@ pub struct UniverseNet {
     counters: BTreeMap<String, u32>,
     tag: u32,
     served: BTreeMap<IpAddr, Vec<usize>>,
+    /// The server answering the exchange in hand.
+    current_server: Option<IpAddr>,
 }
 
 impl UniverseNet {
@@ -189,6 +197,7 @@ impl UniverseNet {
             counters: BTreeMap::new(),
             tag: 0,
             served,
+            current_server: None,
         }
     }
 
@@ -287,6 +296,19 @@ impl UniverseNet {
                         resp.header.is_authoritative = false;
                         resp.authority = self.universe.ns_rrs(c);
                         resp.additional = self.universe.glue_for(z, c, self.knobs.sibling_glue);
+                        if self.universe.zones[z].apex == "." && self.knobs.root_glue_family != 0 {
+                            let keep_v6 = self.knobs.root_glue_family == 1;
+                            let filtered: Vec<ResourceRecord> = resp
+                                .additional
+                                .iter()
+                                .filter(|r| matches!(r.rtype_with_data, RecordTypeWithData::AAAA { .. }) == keep_v6)
+                                .cloned()
+                                .collect();
+                            // never strip a host of its only family
+                            if !filtered.is_empty() {
+                                resp.additional = filtered;
+                            }
+                        }
                     }
                     break;
                 }
@@ -508,6 +530,33 @@ impl UniverseNet {
                             &format!("NS {}", child_name(&format!("gns{k}x{zone_label}"), &up)),
                             300,
                         ));
+                    }
+                }
+            }
+            "referral_to_self_with_glue" => {
+                // the server refers the next deeper domain to ITSELF, by name, with
+                // all its addresses as glue: the same host is named again one step
+                // later, and the family the resolver did not know arrives in between
+                let me = self.current_server.and_then(|ip| {
+                    self.universe
+                        .zones
+                        .iter()
+                        .flat_map(|z| z.ns.iter())
+                        .find(|h| self.universe.host_ips(h).contains(&ip))
+                        .cloned()
+                });
+                if let Some(host) = me {
+                    let mut owner = qname.clone();
+                    while labels(&owner) > current_depth + 1 {
+                        owner = parent(&owner).unwrap_or_else(|| ".".into());
+                    }
+                    if labels(&owner) > current_depth {
+                        clear(&mut resp);
+                        resp.header.is_authoritative = false;
+                        resp.authority.push(rr(&owner, &format!("NS {host}"), 300));
+                        for a in self.universe.host_addresses(&host) {
+                            resp.additional.push(a.to_rr());
+                        }
                     }
                 }
             }
@@ -987,6 +1036,7 @@ impl UniverseNet {
         };
         let fault = self.fault_for(&label);
         ex.fault = fault.clone();
+        self.current_server = Some(to.ip());
         let qname = query
             .questions
             .first()
